@@ -109,6 +109,148 @@ theorem slice_applyWrites_own (h : List Nat) (ws1 ws2 : List (Nat × List Nat)) 
     · intro w' hw'; rw [poke_length _ _ _ hw]; exact hin2 w' hw'
     · intro w' hw'; exact hd1 w' (List.mem_cons_of_mem _ hw')
 
+/-! ### a table of disjoint fields, each written at most once from its start -/
+
+structure FieldW where
+  off : Nat
+  width : Nat
+  bytes : List Nat
+
+def FieldW.disjoint (a b : FieldW) : Prop := a.off + a.width ≤ b.off ∨ b.off + b.width ≤ a.off
+instance (a b : FieldW) : Decidable (a.disjoint b) := by unfold FieldW.disjoint; infer_instance
+
+def fieldWrites (fs : List FieldW) : List (Nat × List Nat) := fs.map fun f => (f.off, f.bytes)
+
+/-- After writing every field of a table of pairwise disjoint fields, each field holds its
+bytes followed by what the block had there before. -/
+theorem field_read (h : List Nat) (fs : List FieldW)
+    (hfit : ∀ f ∈ fs, f.bytes.length ≤ f.width ∧ f.off + f.width ≤ h.length)
+    (hdis : fs.Pairwise FieldW.disjoint) (f : FieldW) (hf : f ∈ fs) :
+    slice (applyWrites h (fieldWrites fs)) f.off f.width
+      = f.bytes ++ slice h (f.off + f.bytes.length) (f.width - f.bytes.length) := by
+  induction fs generalizing h with
+  | nil => cases hf
+  | cons g gs ih =>
+    have hg := hfit g (List.mem_cons_self ..)
+    have hgle : g.off + g.bytes.length ≤ h.length := by omega
+    rw [List.pairwise_cons] at hdis
+    simp only [fieldWrites, List.map_cons, applyWrites]
+    have hin : ∀ w ∈ fieldWrites gs, w.1 + w.2.length ≤ (poke h g.off g.bytes).length := by
+      intro w hw
+      simp only [fieldWrites, List.mem_map] at hw
+      obtain ⟨f', hf', rfl⟩ := hw
+      rw [poke_length _ _ _ hgle]
+      have := hfit f' (List.mem_cons_of_mem _ hf'); simp only []; omega
+    rcases List.mem_cons.1 hf with rfl | hf'
+    · -- the field written first: none of the later writes touches it
+      have hd : ∀ w ∈ fieldWrites gs, f.off + f.width ≤ w.1 ∨ w.1 + w.2.length ≤ f.off := by
+        intro w hw
+        simp only [fieldWrites, List.mem_map] at hw
+        obtain ⟨f', hf', rfl⟩ := hw
+        have hd := hdis.1 f' hf'
+        have := hfit f' (List.mem_cons_of_mem _ hf')
+        unfold FieldW.disjoint at hd; simp only []; omega
+      show slice (applyWrites (poke h f.off f.bytes) (fieldWrites gs)) f.off f.width = _
+      rw [slice_applyWrites_untouched _ _ _ _ hin hd]
+      exact slice_poke_own _ _ _ _ hgle hg.1
+    · have hdg := hdis.1 f hf'
+      have hff := hfit f (List.mem_cons_of_mem _ hf')
+      have := ih (poke h g.off g.bytes)
+        (by intro f' hf''; rw [poke_length _ _ _ hgle]; exact hfit f' (List.mem_cons_of_mem _ hf''))
+        hdis.2 hf'
+      show slice (applyWrites (poke h g.off g.bytes) (fieldWrites gs)) f.off f.width = _
+      rw [this]
+      unfold FieldW.disjoint at hdg
+      congr 1
+      exact slice_poke_disjoint _ _ _ _ _ hgle (by omega)
+
+/-- A range outside every field of the table is untouched. -/
+theorem field_untouched (h : List Nat) (fs : List FieldW) (o n : Nat)
+    (hfit : ∀ f ∈ fs, f.bytes.length ≤ f.width ∧ f.off + f.width ≤ h.length)
+    (hd : ∀ f ∈ fs, o + n ≤ f.off ∨ f.off + f.width ≤ o) :
+    slice (applyWrites h (fieldWrites fs)) o n = slice h o n := by
+  apply slice_applyWrites_untouched
+  · intro w hw
+    simp only [fieldWrites, List.mem_map] at hw
+    obtain ⟨f, hf, rfl⟩ := hw
+    have := hfit f hf; simp only []; omega
+  · intro w hw
+    simp only [fieldWrites, List.mem_map] at hw
+    obtain ⟨f, hf, rfl⟩ := hw
+    have := hfit f hf; have := hd f hf; simp only []; omega
+
+theorem fieldWrites_length (h : List Nat) (fs : List FieldW)
+    (hfit : ∀ f ∈ fs, f.bytes.length ≤ f.width ∧ f.off + f.width ≤ h.length) :
+    (applyWrites h (fieldWrites fs)).length = h.length := by
+  apply applyWrites_length
+  intro w hw
+  simp only [fieldWrites, List.mem_map] at hw
+  obtain ⟨f, hf, rfl⟩ := hw
+  have := hfit f hf; simp only []; omega
+
+/-! ### zero zones, byte range -/
+
+theorem slice_eq_replicate (h : List Nat) (o n : Nat) (c : Nat) (hle : o + n ≤ h.length)
+    (hz : ∀ i, o ≤ i → i < o + n → h[i]? = some c) : slice h o n = List.replicate n c := by
+  unfold slice
+  apply List.ext_getElem?
+  intro i
+  simp only [List.getElem?_take, List.getElem?_drop, List.getElem?_replicate]
+  by_cases hi : i < n
+  · simp only [if_pos hi]; exact hz (o + i) (by omega) (by omega)
+  · simp only [if_neg hi]
+
+/-- Checkable form of "bytes `a … b-1` of `h` are all `c`". -/
+theorem zone_of_all (h : List Nat) (a b c : Nat) (hall : ((h.drop a).take (b - a)).all (· == c) = true) :
+    ∀ i, a ≤ i → i < b → i < h.length → h[i]? = some c := by
+  intro i hai hib hil
+  rw [List.all_eq_true] at hall
+  have hmem : h[i] ∈ (h.drop a).take (b - a) := by
+    rw [List.mem_iff_getElem]
+    refine ⟨i - a, by simp only [List.length_take, List.length_drop]; omega, ?_⟩
+    simp only [List.getElem_take, List.getElem_drop]
+    congr 1; omega
+  have := hall _ hmem
+  rw [List.getElem?_eq_getElem hil]
+  simp only [beq_iff_eq] at this
+  rw [this]
+
+/-- Every byte is a byte. -/
+def isBytes (s : List Nat) : Prop := ∀ c ∈ s, c < 256
+
+theorem isBytes_poke (h : List Nat) (off : Nat) (bs : List Nat) (hh : isBytes h) (hb : isBytes bs) :
+    isBytes (poke h off bs) := by
+  intro c hc
+  unfold poke at hc
+  simp only [List.mem_append] at hc
+  rcases hc with (hc | hc) | hc
+  · exact hh c (List.mem_of_mem_take hc)
+  · exact hb c hc
+  · exact hh c (List.mem_of_mem_drop hc)
+
+theorem isBytes_applyWrites (h : List Nat) (ws : List (Nat × List Nat)) (hh : isBytes h)
+    (hw : ∀ w ∈ ws, isBytes w.2) : isBytes (applyWrites h ws) := by
+  induction ws generalizing h with
+  | nil => exact hh
+  | cons w ws ih =>
+    rw [applyWrites]
+    exact ih _ (isBytes_poke _ _ _ hh (hw w (List.mem_cons_self ..))) (fun w' hw' => hw w' (List.mem_cons_of_mem _ hw'))
+
+theorem sumBytes_le (h : List Nat) (hh : isBytes h) : sumBytes h ≤ 255 * h.length := by
+  unfold sumBytes
+  have key : ∀ (l : List Nat) (acc : Nat), (∀ c ∈ l, c < 256) → l.foldl (· + ·) acc ≤ acc + 255 * l.length := by
+    intro l
+    induction l with
+    | nil => intro acc _; simp
+    | cons c l ih =>
+      intro acc hl
+      simp only [List.foldl_cons, List.length_cons]
+      have hc := hl c (List.mem_cons_self ..)
+      have := ih (acc + c) (fun c' hc' => hl c' (List.mem_cons_of_mem _ hc'))
+      omega
+  have := key h 0 hh
+  omega
+
 /-! ### fixed-width C strings -/
 
 /-- No NUL byte: a C string. -/
